@@ -119,6 +119,9 @@ func applyServiceExtends(ctx context.Context, name string, services map[string]a
 	}
 
 	if base == nil {
+		// nothing to inherit from a base declared with an empty body: `extends` is resolved all the same
+		delete(service, "extends")
+		services[name] = service
 		return service, nil
 	}
 	source := deepClone(base).(map[string]any)
